@@ -148,6 +148,19 @@ def search(ctx):
                     bad += 1
                     ctx.fail(f"h2_flow:metric_reassigned:{label}", f"{type(sysm).__name__} ({stage}): h2_flow does not move the position by t M^-1 p for the current metric", {"system": label, "stage": stage})
                     break
+                if label in ("gauss", "gauss_constr"):
+                    # Gaussian-split h2 = q.q/2 + p.M^-1 p/2: the exact flow is the matrix exponential of the linear Hamilton equations with the CURRENT metric
+                    import scipy.linalg as sla
+                    Minv = np.linalg.inv(Mcur)
+                    A = np.block([[np.zeros((zoo.D, zoo.D)), Minv], [-np.eye(zoo.D), np.zeros((zoo.D, zoo.D))]])
+                    ref = sla.expm(t * A) @ np.concatenate([q, p])
+                    got = fl(p)
+                    errf = np.abs(np.concatenate([got.pos, got.mom]) - ref).max()
+                    if not errf <= 1e-9 * max(1.0, np.abs(ref).max()):
+                        bad += 1
+                        ctx.fail(f"h2_flow:metric_reassigned:{label}", f"{type(sysm).__name__} ({stage}): h2_flow(t={t}) differs from the exact solution of Hamilton's equations for "
+                                 f"h2 with the current metric by {errf:.2e}", {"system": label, "stage": stage, "t": t})
+                        break
     # h1 flow on every system class: momentum shifted by -t grad h1 (finite differences of h1), position unchanged, additive, inverse, repeated calls
     for conv in ("bare", "tuple"):
         systems, _ = zoo.make_systems(conv)
